@@ -25,15 +25,25 @@ use scale::Encode;
 use scale_info::{PortableRegistry, Registry};
 
 fn main() {
+    // a panic inside the library on one type is a result for that type (some feature sets may panic where others do not), not the end of the run
+    std::panic::set_hook(Box::new(|_| {}));
     let mut all = Registry::new();
     let mut k = 0usize;
     for table in [gen_std::table(), gen_derive::table()] {
-        for (m, _) in table.iter() {
-            let mut reg = Registry::new();
-            reg.register_type(m);
-            all.register_type(m);
-            let pr: PortableRegistry = reg.into();
-            println!("fp {} {}", k, proto::hex(&pr.encode()));
+        for (m, name) in table.iter() {
+            let one = std::panic::catch_unwind(|| {
+                let mut reg = Registry::new();
+                reg.register_type(m);
+                let pr: PortableRegistry = reg.into();
+                proto::hex(&pr.encode())
+            });
+            match one {
+                Ok(h) => {
+                    all.register_type(m);
+                    println!("fp {} {}", k, h)
+                }
+                Err(_) => println!("fp {} panic {}", k, name),
+            }
             k += 1;
         }
     }
